@@ -26,6 +26,7 @@ type DescC19 struct {
 	HasSub  bool           `json:"has_sub"`
 	SubNum  byte           `json:"sub_num"`
 	SubExp  byte           `json:"sub_expected"`
+	SigKind int            `json:"signal_kind,omitempty"`    // with PTS: 0 time_signal, 1 timed program splice_insert; without: 0 splice_null, 1 immediate splice_insert, 2 cancelled splice_insert, 3 time_signal without a time (API-built only)
 	Adj     uint64         `json:"pts_adjustment,omitempty"` // the signal time is split into pts_time + pts_adjustment this way (signals with a PTS)
 	Cancel  bool           `json:"cancel,omitempty"`         // segmentation_event_cancel_indicator set through the API (a decoded cancelled descriptor carries no type)
 	Rest    ref.SpliceDesc `json:"rest"`                     // other fields, varied freely
@@ -62,15 +63,17 @@ func genDescC19(t *rapid.T, label string, like *DescC19) DescC19 {
 		d.Adj = rapid.SampledFrom([]uint64{1, 999, 1000, 1001, 1 << 32, 1<<33 - 1}).Draw(t, label+"-adj")
 	}
 	d.Cancel = !d.Decoded && rapid.IntRange(0, 5).Draw(t, label+"-cancel") == 0
+	d.SigKind = rapid.IntRange(0, 3).Draw(t, label+"-signal-kind")
 	if like != nil && rapid.IntRange(0, 1).Draw(t, label+"-like") == 0 {
 		// mostly equal to another descriptor, differing in at most one compared attribute
+		sk := d.SigKind
 		rest, dec, adj, cancel := d.Rest, d.Decoded, d.Adj, d.Cancel
 		if rapid.IntRange(0, 2).Draw(t, label+"-same-rest") == 0 {
 			// identical in every other field as well (same UPID, components, flags, duration)
 			rest = like.Rest
 		}
 		d = *like
-		d.Rest, d.Decoded, d.Adj, d.Cancel = rest, dec, adj, cancel
+		d.Rest, d.Decoded, d.Adj, d.Cancel, d.SigKind = rest, dec, adj, cancel, sk
 		nd := rapid.SampledFrom([]int{1, 1, 2}).Draw(t, label+"-ndiffer")
 		for k := 0; k < nd; k++ {
 			c19Differ(t, fmt.Sprintf("%s-differ%d", label, k), &d)
@@ -127,11 +130,29 @@ func c19Build(d *DescC19) (scte35.SegmentationDescriptor, *hx.Failure) {
 		w.UPID = w.UPID[:len(w.UPID)-over] // descriptor_length is one byte
 	}
 	m := ref.Splice{TableID: 0xFC, Tier: 0xFFF, Descs: []ref.SpliceDesc{w}}
-	if d.HasPTS {
+	noIns := ref.SpliceInsert{Comps: []ref.SpliceComp{}}
+	switch {
+	case d.HasPTS && d.SigKind%2 == 1:
+		m.Cmd, m.Adj = 0x05, d.Adj&m33
+		m.Ins = ref.SpliceInsert{Event: 0x51, Out: true, Prog: true, HasPTS: true, PTS: (d.PTS - d.Adj) & m33, Comps: []ref.SpliceComp{}}
+	case d.HasPTS:
 		m.Cmd, m.TSHasPTS, m.TSPTS = 0x06, true, (d.PTS-d.Adj)&m33
 		m.Adj = d.Adj & m33
-	} else {
+		m.Ins = noIns
+	case d.SigKind%4 == 1:
+		// an immediate splice_insert carries no time
+		m.Cmd, m.Adj = 0x05, d.PTS&m33
+		m.Ins = ref.SpliceInsert{Event: 0x52, Out: true, Prog: true, Immediate: true, Comps: []ref.SpliceComp{}}
+	case d.SigKind%4 == 2:
+		m.Cmd, m.Adj = 0x05, d.PTS&m33
+		m.Ins = ref.SpliceInsert{Event: 0x53, Cancel: true, Comps: []ref.SpliceComp{}}
+	case d.SigKind%4 == 3 && !d.Decoded:
+		// time_signal with time_specified_flag 0 (expressible through the API only)
+		m.Cmd, m.TSHasPTS, m.Adj = 0x06, false, d.PTS&m33
+		m.Ins = noIns
+	default:
 		m.Cmd = 0x00
+		m.Ins = noIns
 		m.Adj = d.PTS // a splice_null has no PTS whatever its adjustment
 	}
 	if d.Decoded {
@@ -266,7 +287,7 @@ func descKey(d *DescC19) string {
 var propC19 = hx.Register(hx.Prop[CaseC19]{ID: "C19", Gen: genC19, Check: checkC19})
 
 func c19Rule() {
-	hx.Rec("C19").SetRule("rapid cases: three descriptors (named or arbitrary type, event id in 1..3, signal with PTS in {1000,2000,2^33-1} or without PTS, segment number/expected in 0..2, sub-segment fields for 0x34/0x36), the second and third derived from the first with one or two compared attributes (incl. the type: start/end partner or any named type) changed half of the time, ALL other descriptor fields drawn freely or (one derived descriptor in three) identical to the first's (flags, components, duration, UPID/MID, the cancel indicator on API-built ones, the split of the signal time into pts_time + pts_adjustment), each realised either through the creation API or by decoding a reference encoding; CanClose on all 9 ordered pairs vs the hand-transcribed rule table (also with the argument wrapped in a decorator type that embeds the interface), IsIn/IsOut vs the documented lists, Equal vs its definition, symmetry, transitivity and congruence on the triple. Enumerated: all 256x256 type pairs x event-equal x PTS-equal x (segment number = expected) x incoming has sub-segments (65536 x 16), IsIn/IsOut for all 256 types, and all ordered pairs of a 720-descriptor family for the equality laws. Non-trivial: a pair with a table entry, or an equal pair.",
+	hx.Rec("C19").SetRule("rapid cases: three descriptors (named or arbitrary type, event id in 1..3, signal with PTS in {1000,2000,2^33-1} (time_signal or timed splice_insert) or without PTS (splice_null, immediate or cancelled splice_insert, time-less time_signal), segment number/expected in 0..2, sub-segment fields for 0x34/0x36), the second and third derived from the first with one or two compared attributes (incl. the type: start/end partner or any named type) changed half of the time, ALL other descriptor fields drawn freely or (one derived descriptor in three) identical to the first's (flags, components, duration, UPID/MID, the cancel indicator on API-built ones, the split of the signal time into pts_time + pts_adjustment), each realised either through the creation API or by decoding a reference encoding; CanClose on all 9 ordered pairs vs the hand-transcribed rule table (also with the argument wrapped in a decorator type that embeds the interface), IsIn/IsOut vs the documented lists, Equal vs its definition, symmetry, transitivity and congruence on the triple. Enumerated: all 256x256 type pairs x event-equal x PTS-equal x (segment number = expected) x incoming has sub-segments (65536 x 16), IsIn/IsOut for all 256 types, and all ordered pairs of a 720-descriptor family for the equality laws. Non-trivial: a pair with a table entry, or an equal pair.",
 		"the rule table is a transcription of the pinned commit's documented rules (the property is defined relative to it)",
 		"the DiffPTS rule is only asserted when both signals carry a PTS")
 }
